@@ -280,6 +280,9 @@ impl Lab {
     pub async fn step(&mut self, op: Op) -> bool {
         let applied = self.apply(op).await;
         if applied {
+            if !matches!(op, Op::Sleep(_) | Op::Advance(_)) {
+                lock(&self.world).last_activity = Some(Instant::now());
+            }
             self.applied.push(op);
             let snap = (self.snapshot)();
             {
@@ -314,6 +317,7 @@ impl Lab {
                     let step = w.step;
                     let timeout_ms = w.cfg.timeout_layer_ms;
                     let vnow = w.vnow_ms();
+                    let prev_activity = w.last_activity;
                     w.reqs.push(ReqRec {
                         id: rid,
                         uri: uri.to_string(),
@@ -322,6 +326,7 @@ impl Lab {
                         probe: false,
                         issued_step: step,
                         issued_instant: Instant::now(),
+                        prev_activity,
                         state: ReqState::Checkout,
                         dial: None,
                         conn: None,
@@ -665,6 +670,8 @@ impl Lab {
                     format!("r{r} is still {after:?} after every connection attempt terminated and background work drained ({wakes} wake-ups since its last poll)"),
                 );
                 w.count("stranded");
+                // the same observation under C01: a request that was not cancelled never completes
+                w.violate("C01", format!("request-never-completes:{class}"), format!("r{r} was not cancelled, every connection attempt terminated, and it is still {after:?} at quiescence"));
             } else if before != after && wakes == 0 {
                 // progress without wake-up is reported by on_poll_result
             }
@@ -712,6 +719,7 @@ impl Lab {
             } else if st != ReqState::Done {
                 let err = w.reqs[rid].error.clone();
                 w.violate("C03", format!("probe-not-served:{st:?}"), format!("fresh probe r{rid} to origin {o} ended {st:?} ({err:?}) after the drain"));
+                w.violate("C01", format!("request-never-completes:probe:{st:?}"), format!("fresh request r{rid} to origin {o}, not cancelled, its connection attempt allowed to succeed and the peer answering, ended {st:?} ({err:?})"));
             } else {
                 w.count("probes_served");
             }
